@@ -20,7 +20,7 @@ EXPLANATION = (
     'same buffer size, and readFromFile, writeToFile and writeBackup transfer exactly sizeof(BookSerializeData::data) bytes per node; '
     '(3) in computeNegaMax and computePathError each snapshot `old = field` is compared with that same field in the "changed" result, '
     'and the set of snapshotted fields equals the set of score fields the function writes (a stale snapshot makes updateScores stop '
-    'propagating a change towards the root).')
+    'propagating a change towards the root); (4) ParentInfo::operator<, which orders the std::set of parent links, compares every field of both operands.')
 UNDECIDED = ('that scores are at the fixed point of the negamax / path-error / expansion-cost equations for every history (value-level '
              'over a DAG). Noted by a seeding sub-agent, not decided here: on the unchanged tree path errors can go stale after '
              'setSearchResult when a node changes through a child while its own parent does not.')
@@ -39,6 +39,47 @@ def run(fb, rep, tier):
     c1_links(fb, rep)
     c2_serialize(fb, rep)
     c3_change_detection(fb, rep)
+    c4_set_ordering(fb, rep)
+
+
+def c4_set_ordering(fb, rep):
+    """K10: the parent links of a node live in a std::set ordered by ParentInfo::operator<.  Two elements the
+    ordering cannot tell apart are one element to the set, so the ordering must look at every field that makes
+    two links different (the move AND the parent node): a transposition in which the same move leads from two
+    parents into one node otherwise loses a link and every score that should propagate through it."""
+    clause = 'C19.4'
+    n = 0
+    for f in sorted(fb.funcs.values(), key=lambda x: x.key):
+        if not f.has_cfg or not f.sname.startswith('BookBuild::') or not f.sname.endswith('::operator<'):
+            continue
+        cls = f.sname[:-len('::operator<')]
+        rec = fb.record(cls)
+        if rec is None:
+            continue
+        short = cls.split('::')[-1]
+        # only orderings that decide membership of an ordered container (a field of type std::set<T> / std::map<T, ..>)
+        import re as _re
+        used = [(rn, fl['n']) for rn, r in fb.records.items() for fl in r.get('fields', [])
+                if _re.search(r'std::(set|multiset|map)<(const )?([\w:]*::)?%s\b' % _re.escape(short), (fl.get('ct') or '') + ' ' + (fl.get('t') or ''))]
+        if not used:
+            continue
+        n += 1
+        fields = {fl['n'] for fl in rec['fields']}
+        own, other = set(), set()
+        pid = f.d['params'][0]['id'] if f.d.get('params') else None
+        trees = [e for _, _, e in f.events()] + [blk['term']['cond'] for bid, blk in f.blocks.items() if bid not in f.dead and (blk.get('term') or {}).get('cond') is not None]
+        for t in trees:
+            for nd in walk(t):
+                if nd.get('k') == 'mem' and (nd.get('f') or '').startswith(cls + '::'):
+                    fn = nd['f'].split('::')[-1]
+                    base = nd.get('b') or {}
+                    if base.get('k') == 'this':
+                        own.add(fn)
+                    elif base.get('k') == 'var' and base.get('id') == pid:
+                        other.add(fn)
+        rep.ob(clause, 'K10 ordering covers the identity', '%s::operator< compares every field of both operands (elements it cannot tell apart are merged by std::set)' % cls.split('::')[-1],
+               fields <= own and fields <= other and bool(fields), f.where, 'fields %s; read of *this %s; read of the other operand %s' % (sorted(fields), sorted(own), sorted(other)), f.sname)
+    rep.floor(clause, 'ordering operators of book-builder records', n, 1)
 
 
 def c1_links(fb, rep):
